@@ -14,7 +14,7 @@ def fixHdr (m resp : Msg) : Msg :=
 
 /-- the EDNS0 fix-up of `handleReqMsg` -/
 def optFix (m resp : Msg) : Msg :=
-  if m.additionals.any (fun r => r.rtype == typeOPT) then addOrReplaceOpt resp else removeEDNS0 resp
+  if queryHasOptAny m then addOrReplaceOpt resp else removeEDNS0 resp
 
 /-- the NOTIMP predicate of `handleReqMsg` -/
 def notImpl (m : Msg) : Bool := m.hdr.response || !m.hdr.rd || m.hdr.opcode != 0 || m.questions.length != 1
@@ -32,7 +32,7 @@ theorem handle_impl (env : Env) (m : Msg) (q0 : Question) (h : notImpl m = false
   unfold handle
   rw [hq] at h ⊢
   simp only [h, Bool.false_eq_true, ↓reduceIte, fixHdr, optFix]
-  exact ⟨trivial, trivial⟩
+  refine ⟨?_, ?_⟩ <;> first | trivial | rfl
 
 theorem notImpl_false (m : Msg) (h : notImpl m = false) :
     m.hdr.response = false ∧ m.hdr.rd = true ∧ m.hdr.opcode = 0 ∧ ∃ q0, m.questions = [q0] := by
@@ -64,7 +64,7 @@ def routed (env : Env) (q : Question) : Msg × List (Nat × Bytes) :=
         | .ok wire =>
           match env.ups[u]? with
           | some (.reply resp) =>
-            if isRespOfQuestion resp q then (removeEDNS0 resp, [(u, wire)])
+            if isRespOfQuestion resp q then (stripOpt resp, [(u, wire)])
             else (makeEmptyResp q rcodeServFail, [(u, wire)])
           | _ => (makeEmptyResp q rcodeServFail, [(u, wire)])
         | _ => (makeEmptyResp q rcodeServFail, [])
@@ -136,7 +136,7 @@ def specForwarded (env : Env) (q : Question) (u : Nat) (r : Msg) (wire : Bytes) 
             | some (.reply um) =>
               if isRespOfQuestion um q then
                 (if r.hdr.rcode ≠ um.hdr.rcode then "viol:C03:relayed-rcode"
-                 else if r.answers ≠ um.answers ∨ r.authorities ≠ um.authorities then "viol:C03:relayed-records"
+                 else if r.answers ≠ relayed um.answers ∨ r.authorities ≠ relayed um.authorities then "viol:C03:relayed-records"
                  else "ok")
               else (if r.hdr.rcode ≠ rcodeServFail then "viol:C03:servfail" else "ok")
             | _ => if r.hdr.rcode ≠ rcodeServFail then "viol:C03:servfail" else "ok"
@@ -166,6 +166,14 @@ def specRouted (env : Env) (q0 : Question) (o : ImplOut) : String :=
     | [] => "viol:C10:not-forwarded"
     | _ => "viol:C10:forwarded-more-than-once"
 
+/-- the specification's "the query contained an OPT record" is the model's `queryOpt(m) != nil` -/
+theorem queryAny_eq (m : Msg) :
+    (m.answers ++ m.authorities ++ m.additionals).any (fun r => r.rtype == typeOPT) = queryHasOptAny m := by
+  unfold queryHasOptAny
+  simp only [List.any_append]
+  cases m.answers.any (fun r => r.rtype == typeOPT) <;> cases m.authorities.any (fun r => r.rtype == typeOPT) <;>
+    cases m.additionals.any (fun r => r.rtype == typeOPT) <;> rfl
+
 /-- the facts about a response that the C03-header, C03-question and C12-client-OPT checks of `spec` ask for -/
 structure RespOK (m : Msg) (q0 : Question) (r : Msg) : Prop where
   id : r.hdr.id = m.hdr.id
@@ -175,19 +183,19 @@ structure RespOK (m : Msg) (q0 : Question) (r : Msg) : Prop where
   rd : r.hdr.rd = m.hdr.rd
   questions : r.questions = [] ∨ ∃ rq, r.questions = [rq] ∧ lowerName rq.name = lowerName q0.name ∧
     rq.qtype = q0.qtype ∧ rq.qclass = q0.qclass
-  optCount : optCount r = if m.additionals.any (fun x => x.rtype == typeOPT) then 1 else 0
-  optContent : m.additionals.any (fun x => x.rtype == typeOPT) = true →
+  optCount : optCount r = if queryHasOptAny m then 1 else 0
+  optContent : queryHasOptAny m = true →
     r.additionals.filter (fun x => x.rtype == typeOPT) = [newEDNS0 1200 []]
 
 /-- `spec` on a supported query whose answer passes the header / question / OPT checks is `specRouted` -/
 theorem spec_supported (env : Env) (m : Msg) (q0 : Question) (o : ImplOut) (hn : notImpl m = false)
     (hq : m.questions = [q0]) (h : RespOK m q0 o.resp) : spec env m o = specRouted env q0 o := by
-  have hcont : ¬ ((m.additionals.any fun r => r.rtype == typeOPT) = true ∧
+  have hcont : ¬ (queryHasOptAny m = true ∧
       ¬ List.filter (fun x => x.rtype == typeOPT) o.resp.additionals = [newEDNS0 1200 []]) := by
     intro ⟨h1, h2⟩
     exact h2 (h.optContent h1)
   unfold spec
-  simp only [supported_eq, hn]
+  simp only [supported_eq, hn, queryAny_eq]
   simp only [hq, h.id, h.opcode, h.response, h.ra, h.rd, ne_eq, not_true_eq_false, ↓reduceIte,
     Bool.not_true, Bool.false_eq_true, Bool.not_false, h.optCount]
   rcases h.questions with h0 | ⟨rq, h1, h2, h3, h4⟩
@@ -211,10 +219,28 @@ theorem spec_notImpl (env : Env) (m : Msg) (hn : notImpl m = true) :
 
 /-! ### the client-side checks on the model's answer -/
 
-theorem optCount_eq (r : Msg) : optCount r = countOpt r.additionals := by
-  unfold optCount countOpt
+theorem optCount_parts (r : Msg) :
+    optCount r = (r.answers.filter (fun x => x.rtype == typeOPT)).length
+      + (r.authorities.filter (fun x => x.rtype == typeOPT)).length
+      + (r.additionals.filter (fun x => x.rtype == typeOPT)).length := by
+  simp only [optCount, List.filter_append, List.length_append]
+
+theorem countOpt_eq_filter (rs : List Resource) :
+    countOpt rs = (rs.filter (fun x => x.rtype == typeOPT)).length := by
+  unfold countOpt
   rw [List.countP_eq_length_filter]
   rfl
+
+/-- `removeOpt` leaves no OPT record -/
+theorem removeOpt_noOpt (rs : List Resource) : (removeOpt rs).filter (fun x => x.rtype == typeOPT) = [] := by
+  simp [removeOpt, List.filter_eq_nil_iff]
+
+/-- `dnsmsg.RemoveEDNS0` leaves no OPT record in any section -/
+theorem stripOpt_noOpt (x : Msg) : optCount (stripOpt x) = 0 := by
+  rw [optCount_parts]
+  simp only [stripOpt, removeOpt_noOpt, List.length_nil]
+
+theorem makeEmptyResp_noOpt (q : Question) (rc : Nat) : optCount (makeEmptyResp q rc) = 0 := rfl
 
 @[simp] theorem fixHdr_questions (m x : Msg) : (fixHdr m x).questions = x.questions := rfl
 @[simp] theorem fixHdr_answers (m x : Msg) : (fixHdr m x).answers = x.answers := rfl
@@ -236,33 +262,36 @@ theorem countOpt_zero_filter (rs : List Resource) (h : countOpt rs = 0) :
   rw [List.countP_eq_length_filter, List.length_eq_zero_iff] at h
   exact h
 
-/-- the EDNS0 fix-up leaves exactly the proxy's own OPT (query with OPT) or none (query without), provided at
-    most one OPT came in -/
-theorem optFix_opt (m x : Msg) (hx : countOpt x.additionals ≤ 1) :
-    optCount (optFix m x) = (if m.additionals.any (fun r => r.rtype == typeOPT) then 1 else 0) ∧
-    (m.additionals.any (fun r => r.rtype == typeOPT) = true →
+/-- the EDNS0 fix-up leaves exactly the proxy's own OPT (query with an OPT somewhere) or none (query without),
+    given a response without OPT records -/
+theorem optFix_opt (m x : Msg) (hx : optCount x = 0) :
+    optCount (optFix m x) = (if queryHasOptAny m then 1 else 0) ∧
+    (queryHasOptAny m = true →
       (optFix m x).additionals.filter (fun r => r.rtype == typeOPT) = [newEDNS0 1200 []]) := by
+  rw [optCount_parts] at hx
+  have ha : (x.answers.filter (fun r => r.rtype == typeOPT)).length = 0 := by omega
+  have hn : (x.authorities.filter (fun r => r.rtype == typeOPT)).length = 0 := by omega
+  have hx' : countOpt x.additionals = 0 := by rw [countOpt_eq_filter]; omega
   have hpop : countOpt (popEDNS0 x.additionals).2 = 0 := by rw [countOpt_pop]; omega
+  have hpopf := countOpt_zero_filter _ hpop
   have hnew : newEDNS0 udpSize [] = newEDNS0 1200 [] := rfl
   unfold optFix
-  by_cases ho : (m.additionals.any fun r => r.rtype == typeOPT) = true
-  · simp only [ho, ↓reduceIte, addOrReplaceOpt, forall_const]
+  by_cases ho : queryHasOptAny m = true
+  · simp only [ho, ↓reduceIte, forall_const]
     constructor
-    · rw [optCount_eq]
-      simp only [countOpt, List.countP_append]
-      have : List.countP isOptB (popEDNS0 x.additionals).2 = 0 := hpop
-      rw [this]
+    · rw [optCount_parts]
+      simp only [addOrReplaceOpt, ha, hn, List.filter_append, hpopf, hnew]
       rfl
-    · rw [List.filter_append, countOpt_zero_filter _ hpop, hnew]
+    · simp only [addOrReplaceOpt, List.filter_append, hpopf, hnew]
       rfl
-  · simp only [ho, Bool.false_eq_true, ↓reduceIte, removeEDNS0, false_implies, and_true]
-    rw [optCount_eq]
-    exact hpop
+  · simp only [ho, Bool.false_eq_true, ↓reduceIte, false_implies, and_true]
+    rw [optCount_parts]
+    simp only [removeEDNS0, ha, hn, hpopf, List.length_nil]
 
 theorem respOK_fix (m : Msg) (q0 : Question) (x : Msg)
     (hquest : x.questions = [] ∨ ∃ rq, x.questions = [rq] ∧ lowerName rq.name = lowerName q0.name ∧
       rq.qtype = q0.qtype ∧ rq.qclass = q0.qclass)
-    (hx : countOpt x.additionals ≤ 1) : RespOK m q0 (fixHdr m (optFix m x)) := by
+    (hx : optCount x = 0) : RespOK m q0 (fixHdr m (optFix m x)) := by
   obtain ⟨h1, h2⟩ := optFix_opt m x hx
   exact {
     id := rfl, opcode := rfl, response := rfl, ra := rfl, rd := rfl
@@ -275,7 +304,7 @@ theorem respOK_fix (m : Msg) (q0 : Question) (x : Msg)
 /-- what `forward` answers once the query went out to upstream `u` -/
 def relay (env : Env) (q : Question) (u : Nat) : Msg :=
   match env.ups[u]? with
-  | some (.reply resp) => if isRespOfQuestion resp q then removeEDNS0 resp else makeEmptyResp q rcodeServFail
+  | some (.reply resp) => if isRespOfQuestion resp q then stripOpt resp else makeEmptyResp q rcodeServFail
   | _ => makeEmptyResp q rcodeServFail
 
 theorem routed_forward (env : Env) (q : Question) (ru : Rule) (u : Nat) (wire : Bytes)
@@ -312,7 +341,7 @@ theorem specForwarded_model (env : Env) (m : Msg) (q : Question) (u : Nat) (wire
     | reply resp =>
       simp only
       by_cases hq : isRespOfQuestion resp q = true
-      · simp [hq, removeEDNS0]
+      · simp [hq, stripOpt, removeOpt, relayed]
       · simp [hq, makeEmptyResp]
 
 /-- ★ the model's answer and forwards pass the C10 part of `spec`: first-match rule, reject code, REFUSED,
@@ -351,22 +380,19 @@ theorem routed_fst (env : Env) (q : Question) : (routed env q).1 = (handleReq en
 theorem routed_snd (env : Env) (q : Question) : (routed env q).2 = (handleReq env q).2.2 :=
   (congrArg Prod.snd (handleReq_routed env q)).symm
 
-/-- what `handleReq` returns carries at most one OPT record when the relayed upstream reply had at most two -/
-theorem routed_countOpt (env : Env) (q : Question)
-    (hups : ∀ ru u resp, env.rules.find? (fun r => r.applies q.name) = some ru → ru.reject = 0 →
-      ru.upstream = some u → env.ups[u]? = some (.reply resp) → isRespOfQuestion resp q = true →
-      countOpt resp.additionals ≤ 2) :
-    countOpt (routed env q).1.additionals ≤ 1 := by
-  have h0 : ∀ rc, countOpt (makeEmptyResp q rc).additionals ≤ 1 := fun _ => Nat.zero_le _
+/-- what `handleReq` returns carries no OPT record in any section: a locally built empty response, or an
+    upstream reply after `dnsmsg.RemoveEDNS0` -/
+theorem routed_noOpt (env : Env) (q : Question) : optCount (routed env q).1 = 0 := by
+  have h0 : ∀ rc, optCount (makeEmptyResp q rc) = 0 := makeEmptyResp_noOpt q
   unfold routed
-  cases hf : env.rules.find? (fun r => r.applies q.name) with
+  cases env.rules.find? (fun r => r.applies q.name) with
   | none => exact h0 _
   | some ru =>
     simp only
     by_cases hr : ru.reject > 0
     · simp only [hr, ↓reduceIte]; exact h0 _
     · simp only [hr, ↓reduceIte]
-      cases hu : ru.upstream with
+      cases ru.upstream with
       | none => exact h0 _
       | some u =>
         simp only
@@ -375,7 +401,7 @@ theorem routed_countOpt (env : Env) (q : Question)
         | panic => exact h0 _
         | ok wire =>
           simp only
-          cases hup : env.ups[u]? with
+          cases env.ups[u]? with
           | none => exact h0 _
           | some o =>
             cases o with
@@ -383,10 +409,7 @@ theorem routed_countOpt (env : Env) (q : Question)
             | reply resp =>
               simp only
               by_cases hq : isRespOfQuestion resp q = true
-              · simp only [hq, ↓reduceIte, removeEDNS0]
-                rw [countOpt_pop]
-                have := hups ru u resp hf (by omega) hu hup hq
-                omega
+              · simp only [hq, ↓reduceIte]; exact stripOpt_noOpt resp
               · simp only [hq, Bool.false_eq_true, ↓reduceIte]; exact h0 _
 
 theorem routed_questions (env : Env) (q0 : Question) :
@@ -404,15 +427,12 @@ theorem routed_questions (env : Env) (q0 : Question) :
 theorem spec_model_supported (env : Env) (m : Msg) (q0 : Question) (hn : notImpl m = false) (hq : m.questions = [q0])
     (hwf : ∀ ru u, env.rules.find? (fun r => r.applies (lowerName q0.name)) = some ru → ru.reject = 0 →
       ru.upstream = some u → questionWF q0 = true)
-    (hrej : ∀ ru, env.rules.find? (fun r => r.applies (lowerName q0.name)) = some ru → ru.reject < 16)
-    (hups : ∀ ru u resp, env.rules.find? (fun r => r.applies (lowerName q0.name)) = some ru → ru.reject = 0 →
-      ru.upstream = some u → env.ups[u]? = some (.reply resp) →
-      isRespOfQuestion resp ⟨lowerName q0.name, q0.qtype, q0.qclass⟩ = true → countOpt resp.additionals ≤ 2) :
+    (hrej : ∀ ru, env.rules.find? (fun r => r.applies (lowerName q0.name)) = some ru → ru.reject < 16) :
     spec env m ⟨(handle env m).resp, (handle env m).forwards⟩ = "ok" := by
   obtain ⟨h1, h2⟩ := handle_impl env m q0 hn hq
   rw [h1, h2, ← routed_fst, ← routed_snd]
   rw [spec_supported env m q0 _ hn hq
-    (respOK_fix m q0 _ (routed_questions env q0) (routed_countOpt env _ hups))]
+    (respOK_fix m q0 _ (routed_questions env q0) (routed_noOpt env _))]
   exact specRouted_model env m q0 hwf hrej
 
 /-- ★ unsupported queries: no hypothesis at all -/
@@ -423,12 +443,10 @@ theorem spec_model_notImpl (env : Env) (m : Msg) (hn : notImpl m = true) :
   exact spec_notImpl env m hn
 
 /-- ★★ The model satisfies its own executable specification: for every environment and every query whose
-    questions are well formed, with reject codes that fit the 4-bit RCODE field and upstream replies carrying at
-    most two OPT records, `spec` judges the model's answer and forwards "ok". -/
+    questions are well formed, with reject codes that fit the 4-bit RCODE field, `spec` judges the model's answer and forwards "ok". -/
 theorem spec_model (env : Env) (m : Msg)
     (hq : ∀ q ∈ m.questions, questionWF q = true)
-    (hrej : ∀ ru ∈ env.rules, ru.reject < 16)
-    (hups : ∀ (u : Nat) (resp : Msg), env.ups[u]? = some (UpOutcome.reply resp) → countOpt resp.additionals ≤ 2) :
+    (hrej : ∀ ru ∈ env.rules, ru.reject < 16) :
     spec env m ⟨(handle env m).resp, (handle env m).forwards⟩ = "ok" := by
   cases hn : notImpl m with
   | true => exact spec_model_notImpl env m hn
@@ -437,6 +455,5 @@ theorem spec_model (env : Env) (m : Msg)
     exact spec_model_supported env m q0 hn hq0
       (fun _ _ _ _ _ => hq q0 (by rw [hq0]; exact List.mem_singleton.mpr rfl))
       (fun ru hf => hrej ru (List.mem_of_find?_eq_some hf))
-      (fun _ u resp _ _ _ hup _ => hups u resp hup)
 
 end MosVerif.Router
